@@ -214,3 +214,74 @@ func vh_new() {
 	vAssert(g.offset < g.numBuckets, "C08/new/offset-in-range")
 	vObserve("n", g.NumStreams)
 }
+
+// the id arithmetic, for every word of the widest bitmap (512 words, protocol >= 3) and every bit:
+// the id GetStream reports for bit j of word b is the id whose Clear / isSet address exactly that
+// bit, it fits the protocol's stream field, and distinct (word, bit) pairs give distinct ids.
+func vh_id_mapping() {
+	b := vInt("bucket")
+	j := vInt("bit")
+	vAssume(b >= 0 && b < 512 && j >= 0 && j < bucketBits)
+	id := streamFromBucket(b, j)
+	vAssert(id >= 0 && id < 32768, "C08/ids/fit-the-15-bit-stream-field")
+	vAssert(b >= 2 || id < 128, "C08/ids/fit-the-7-bit-stream-field-for-two-words")
+	if id >= 0 && id < 32768 {
+		vAssert(bucketOffset(id) == b && streamOffset(id) == streamOffset(j), "C08/ids/clear-addresses-the-bit-getstream-set")
+		vAssert(isSet(uint64(1)<<streamOffset(j), id), "C08/ids/isset-addresses-the-bit-getstream-set")
+	}
+	b2 := vInt("bucket2")
+	j2 := vInt("bit2")
+	vAssume(b2 >= 0 && b2 < 512 && j2 >= 0 && j2 < bucketBits)
+	if b2 != b || j2 != j {
+		vAssert(streamFromBucket(b2, j2) != id, "C08/ids/distinct-bits-have-distinct-ids")
+	}
+	vAssert((id == 0) == (b == 0 && j == 0), "C08/ids/only-the-reserved-bit-is-id-0")
+}
+
+// GetStream on the real New(p) generator (128 or 32768 ids) when the first word it probes is
+// word w and that word keeps one free id for the whole call: the id comes from word w.
+var vWideWords = []int{0, 1, 255, 510, 511}
+
+func vh_getstream_wide() {
+	vGen = New(vBound("proto"))
+	vMine = make([]uint64, len(vGen.streams))
+	vCasOK, vAdds = nil, nil
+	vFailBudget = vBound("cas_failures")
+	n := len(vGen.streams)
+	var w int
+	if vBound("all_words") == 1 {
+		w = vChoose("word", n)
+	} else {
+		w = vWideWords[vChoose("word", len(vWideWords))]
+	}
+	vAssume(w < n)
+	vWideOffset = uint32((w + n - 1) % n)
+	vFreeAssume = true
+	vFreeWord = w
+	bit := vU8("free_bit")
+	vAssume(bit < 64 && !(w == 0 && bit == 63))
+	vFreeMask = uint64(1) << bit
+	id, ok := vGen.GetStream()
+	vFreeAssume = false
+	vAssert(ok, "C08/get/no-exhaustion-while-an-id-stays-free")
+	if ok && len(vCasOK) == 1 {
+		c := vCasOK[0]
+		m := c.new ^ c.old
+		vAssert(id > 0 && id < vGen.NumStreams, "C08/get/id-in-range-and-not-zero")
+		vAssert(c.word == w && c.word == id/64 && m == uint64(1)<<(63-uint(id%64)), "C08/get/returned-id-is-the-bit-it-set")
+		// releasing the id clears exactly that bit
+		vMine[c.word] = m
+		vCasOK = nil
+		vFailBudget = 0
+		r := vGen.Clear(id)
+		vAssert(r && len(vCasOK) == 1 && vCasOK[0].word == c.word && vCasOK[0].new == vCasOK[0].old&^m, "C08/clear/cas-clears-exactly-that-set-bit")
+	}
+	vObserve("id", id)
+}
+
+var vWideOffset uint32
+
+func vstubLoadUint32Wide(addr *uint32) uint32 {
+	vAssert(addr == &vGen.offset, "C08/atomic/offset-address")
+	return vWideOffset
+}
